@@ -48,7 +48,8 @@ Record inv (st : state) : Prop := mkInv {
              forall j, kp st s j = KIdle \/ sub_pc (kp st s j) = true;
   i_sub : forall s j, sub_pc (kp st s j) = true -> ret (subs st s) = false /\ j = 0;
   i_j : forall s j, j <> 0 -> kp st s j = KIdle \/ in_close (kp st s j) = true;
-  i_send : forall p s vis, pp st p = PSend s vis -> in_map (subs st s) = true
+  i_send : forall p s vis, pp st p = PSend s vis -> in_map (subs st s) = true;
+  i_nil : forall s j, kp st s j = KRecv true -> cleared (subs st s) = true
 }.
 
 Lemma inv_init : forall n kscr pscr, inv (init n kscr pscr).
@@ -113,6 +114,8 @@ Ltac derive P tac :=
 Ltac fwd1 I :=
   match goal with
   | H : is_none _ = true |- _ => apply is_none_true in H
+  | H : andb _ _ = true |- _ => apply andb_prop in H
+  | H : negb _ = true |- _ => apply negb_true_iff in H
   | H : holdp (pp ?st ?p) = true |- _ =>
       derive (tmu st = Some (TPub p)) ltac:(exact (i_tmu1 _ I (TPub p) H))
   | H : holdk (kp ?st ?s ?j) = true |- _ =>
@@ -238,11 +241,183 @@ Proof.
   intros st t l st' br I H s0.
   destruct t as [p | s j]; step_inv H; simp; intros Hq.
   all: eqb_tac; simp.
+  all: try (left; reflexivity).
   all: try (destruct (i_done _ I _ Hq) as [Hc | [j' Hp]];
             [left; fin I; auto; fail | right; exists j'; eqb_tac; fin I; auto]).
-  Show.
+  right. exists j. rewrite Nat.eqb_refl. reflexivity.
+Qed.
+
+Lemma step_sub : forall st t l st' br, inv st -> step VFixed st t l = Some (st', br) ->
+  forall s0 j0, sub_pc (kp st' s0 j0) = true -> ret (subs st' s0) = false /\ j0 = 0.
+Proof.
+  intros st t l st' br I H s0 j0.
+  destruct t as [p | s j]; step_inv H; simp; eqb_tac; simp; intros Hq;
+    try discriminate; try congruence.
+  all: fin I; auto.
+Qed.
+
+Lemma step_j : forall st t l st' br, inv st -> step VFixed st t l = Some (st', br) ->
+  forall s0 j0, j0 <> 0 -> kp st' s0 j0 = KIdle \/ in_close (kp st' s0 j0) = true.
+Proof.
+  intros st t l st' br I H s0 j0 Hj. pose proof (i_j _ I s0 j0 Hj) as J.
+  destruct t as [p | s j]; step_inv H; simp; eqb_tac; simp; auto; fin I; auto.
+Qed.
+
+Lemma step_send : forall st t l st' br, inv st -> step VFixed st t l = Some (st', br) ->
+  forall p0 s0 vis, pp st' p0 = PSend s0 vis -> in_map (subs st' s0) = true.
+Proof.
+  intros st t l st' br I H p0 s0 vis.
+  destruct t as [p | s j]; step_inv H; simp; eqb_tac; simp; intros Hq;
+    try discriminate; try congruence.
+  all: try (inversion Hq; subst; clear Hq); fin I; auto.
+Qed.
+
+Lemma step_fresh : forall st t l st' br, inv st -> step VFixed st t l = Some (st', br) ->
+  forall s0, ret (subs st' s0) = false ->
+    closed (subs st' s0) = false /\ done (subs st' s0) = false /\ cleared (subs st' s0) = false /\
+    smu (subs st' s0) = None /\ (in_map (subs st' s0) = true -> kp st' s0 0 = KSubUnlock) /\
+    forall j0, kp st' s0 j0 = KIdle \/ sub_pc (kp st' s0 j0) = true.
+Proof.
+  intros st t l st' br I H s0.
+  destruct t as [p | s j]; step_inv H; simp; eqb_tac; simp; intros Hq;
+    try discriminate.
+  all: fin I.
+  all: try (repeat split; auto; intros; eqb_tac; fin I; auto; fail).
+  all: try (exfalso; match goal with H3 : in_map _ = true -> _, Hin : in_map _ = true |- _ =>
+                       specialize (H3 Hin); discriminate end).
+  all: repeat split; auto.
+  all: try (intros Hin; match goal with H3 : in_map _ = true -> _ |- _ => specialize (H3 Hin) end;
+            rw_pcs; try discriminate; congruence).
+  all: try (intros j0; eqb_tac; simp0; auto;
+            match goal with H4 : forall j, _ \/ _ |- _ => specialize (H4 j0) end; rw_pcs; simp0;
+            intuition congruence).
+Qed.
+
+Lemma step_nil : forall st t l st' br, inv st -> step VFixed st t l = Some (st', br) ->
+  forall s0 j0, kp st' s0 j0 = KRecv true -> cleared (subs st' s0) = true.
+Proof.
+  intros st t l st' br I H s0 j0. pose proof (i_nil _ I s0 j0) as Hn.
+  destruct t as [p | s j]; step_inv H; simp; eqb_tac; simp; intros Hq;
+    try discriminate; try congruence; auto.
+  all: try (inversion Hq; subst; clear Hq); fin I; auto.
+Qed.
+
+Theorem inv_step : forall st t l st' br, inv st -> step VFixed st t l = Some (st', br) -> inv st'.
+Proof.
+  intros st t l st' br I H. constructor.
+  - eapply step_bad; eauto.
+  - eapply step_tmu1; eauto.
+  - eapply step_tmu2; eauto.
+  - eapply step_smu1; eauto.
+  - eapply step_smu2; eauto.
+  - eapply step_map; eauto.
+  - eapply step_clr; eauto.
+  - eapply step_pc; eauto.
+  - eapply step_done; eauto.
+  - eapply step_fresh; eauto.
+  - eapply step_sub; eauto.
+  - eapply step_j; eauto.
+  - eapply step_send; eauto.
+  - eapply step_nil; eauto.
+Qed.
+
+Theorem inv_reachable : forall n kscr pscr st, reachable VFixed (init n kscr pscr) st -> inv st.
+Proof.
+  intros n kscr pscr st R. induction R.
+  - apply inv_init.
+  - eapply inv_step; eauto.
+Qed.
 
 
 
 
 
+
+
+
+
+
+
+(* ---------- consequences ---------- *)
+
+(* no runtime panic is reachable: no send on a closed channel, no double close of ch or done *)
+Theorem no_panic : forall n kscr pscr st, reachable VFixed (init n kscr pscr) st -> bad st = false.
+Proof. intros. eapply i_bad, inv_reachable; eauto. Qed.
+
+(* ... and none is one step away either: every enabled step of a reachable state avoids the panic
+   branches 9 (send on closed ch), 24 (close(done) twice), 27 (close(ch) twice) *)
+Theorem no_panic_branch : forall st t l st' br, inv st -> step VFixed st t l = Some (st', br) ->
+  br <> 9%N /\ br <> 24%N /\ br <> 27%N.
+Proof.
+  intros st t l st' br I H. pose proof (step_bad _ _ _ _ _ I H) as Hb.
+  destruct t as [p | s j]; step_inv H; simp; repeat split; try discriminate; try congruence.
+Qed.
+
+(* closed-ness only grows: done, cleared, closed, ret are never reset (any variant) *)
+Lemma step_mono : forall v st t l st' br, step v st t l = Some (st', br) -> forall s0,
+  (done (subs st s0) = true -> done (subs st' s0) = true) /\
+  (cleared (subs st s0) = true -> cleared (subs st' s0) = true) /\
+  (closed (subs st s0) = true -> closed (subs st' s0) = true) /\
+  (ret (subs st s0) = true -> ret (subs st' s0) = true).
+Proof.
+  intros v st t l st' br H s0.
+  destruct t as [p | s j]; step_inv H; simp; eqb_tac; simp; repeat split; auto; try congruence.
+Qed.
+
+(* a step of thread t changes only t's pc, except that a publisher's rendezvous send moves the
+   receiver (s,0) from "blocked in Next" to idle *)
+Lemma step_frame_k : forall v st t l st' br s j, step v st t l = Some (st', br) -> t <> TSub s j ->
+  kp st' s j = kp st s j \/ (kp st s j = KRecv false /\ kp st' s j = KIdle).
+Proof.
+  intros v st t l st' br s j H Hne.
+  destruct t as [p | s1 j1]; step_inv H; simp; eqb_tac; simp; auto; try congruence.
+Qed.
+Lemma step_frame_p : forall v st t l st' br p, step v st t l = Some (st', br) -> t <> TPub p ->
+  pp st' p = pp st p.
+Proof.
+  intros v st t l st' br p H Hne.
+  destruct t as [p1 | s1 j1]; step_inv H; simp; eqb_tac; simp; auto; try congruence.
+Qed.
+
+(* the done case of Publish's select *)
+Lemma pub_skip : forall st p s vis, bad st = false -> pp st p = PSend s vis -> done (subs st s) = true ->
+  step VFixed st (TPub p) LSkip = Some (set_pp p (PLoop (s :: vis)) st, 6%N).
+Proof. intros st p s vis Hb Hp Hd. unfold step, pstep. rewrite Hb, Hp, Hd. reflexivity. Qed.
+
+Definition xnextpc (c : bool) (x : xpc) : kpc :=
+  match x with
+  | XCheck => if c then KClose XUnlockS else KClose XCloseDone
+  | XCloseDone => KClose XLockT | XLockT => KClose XUnsub | XUnsub => KClose XUnlockT
+  | XUnlockT => KClose XClear | XClear => KClose XUnlockS | XUnlockS => KIdle
+  end.
+
+(* every pc of Close is enabled, except XLockT which needs Topic.mu to be free *)
+Lemma x_step : forall st s j x, inv st -> kp st s j = KClose x -> (x = XLockT -> tmu st = None) ->
+  exists st' br, step VFixed st (TSub s j) L0 = Some (st', br) /\
+    kp st' s j = xnextpc (cleared (subs st s)) x /\
+    (forall p, pp st' p = pp st p) /\
+    tmu st' = match x with XLockT => Some (TSub s j) | XUnlockT => None | _ => tmu st end /\
+    (x = XCloseDone -> done (subs st' s) = true) /\
+    (x = XUnlockS -> smu (subs st' s) = None).
+Proof.
+  intros st s j x I Hk Ht. pose proof (i_bad _ I) as Hb.
+  unfold step, sstep, xstep. rewrite Hb, Hk. cbv zeta.
+  destruct x; simp.
+  - destruct (cleared (subs st s)); do 2 eexists; (split; [reflexivity|]); simp;
+      rewrite !Nat.eqb_refl; repeat split; auto; discriminate.
+  - fwd I. rewrite H0. do 2 eexists; (split; [reflexivity|]); simp; rewrite !Nat.eqb_refl.
+    rewrite H. repeat split; auto; discriminate.
+  - rewrite (Ht eq_refl). cbn [is_none]. fwd I. do 2 eexists; (split; [reflexivity|]); simp;
+      rewrite !Nat.eqb_refl. rewrite H. repeat split; auto; discriminate.
+  - fwd I. destruct (in_map (subs st s)) eqn:Hm4.
+    + rewrite (i_map _ I _ Hm4). do 2 eexists; (split; [reflexivity|]); simp; rewrite !Nat.eqb_refl.
+      rewrite H. repeat split; auto; discriminate.
+    + do 2 eexists; (split; [reflexivity|]); simp; rewrite !Nat.eqb_refl.
+      rewrite H. repeat split; auto; discriminate.
+  - fwd I. do 2 eexists; (split; [reflexivity|]); simp; rewrite !Nat.eqb_refl.
+    rewrite H. repeat split; auto; discriminate.
+  - fwd I. do 2 eexists; (split; [reflexivity|]); simp; rewrite !Nat.eqb_refl.
+    rewrite H. repeat split; auto; discriminate.
+  - fwd I. do 2 eexists; (split; [reflexivity|]); simp; rewrite !Nat.eqb_refl.
+    repeat split; auto; discriminate.
+Qed.
